@@ -31,6 +31,23 @@ GEN.append("~V\nVERS. 2.0:\nWRAP. NO:\n~W\nSTRT.M 1:\nSTOP.M 120:\nSTEP.M 1:\nNU
            + "".join("C%d.:\n" % j for j in range(1, 45)) + "~A\n" + "".join(" ".join(str(r + j * 0.5) for j in range(45)) + "\n" for r in range(1, 121)))
 GEN.append("~V\nVERS. 2.0:\nWRAP. NO:\n~W\nSTRT.M 1:\nSTOP.M 2:\nSTEP.M 1:\nNULL. -999.25:\n~C\nDEPT.M:\n" + "GR.:\n" * 12 + "~P\n" + "RUN. 1: r\n" * 11
            + "~A\n1 " + " ".join(str(j) for j in range(12)) + "\n2 " + " ".join(str(j + 0.5) for j in range(12)) + "\n")
+# input alphabet: units ending in several periods, format characters and braces, mixed-case NULL in a 1.2 file, text curves with
+# hyphenated words next to many numeric columns (wrapping), Unicode that a normalisation would change
+GEN.append("~V\nVERS. 2.0:\nWRAP. NO:\n~W\nSTRT.M 1:\nSTOP.M 2:\nSTEP.M 1:\nNULL. -999.25:\nTPL. {0} : format {} %s %(x)d {\nGUID.% {WELL_NAME} : PL{}/7\n"
+           "~C\nDEPT.M:\nGR.:\n~P\nRES.ohm.m... 5 : three trailing periods\nR2.ohm.. 6 : two\nKB.ft(KB) 12.5 : bracket\nFRC.(lbf)/ft 3 : bracket first\n"
+           "OHM.\u2126 7 : ohm sign, e\u0301 combining\n~A\n1 1\n2 2\n")
+GEN.append("~V\nVERS. 1.2: old\nWRAP. NO:\n~W\nSTRT.M 1.0: first\nSTOP.M 3.0: last\nSTEP.M 1.0: inc\nNull. -999.25: nul\nComp. the company: ACME\n"
+           "Well. the well: W-1\n~C\nDEPT.M: d\nGR.: g\n~A\n1 10\n2 -999.25\n3 30\n")
+GEN.append("~V\nVERS. 2.0:\nWRAP. NO:\n~W\nSTRT.M 1:\nSTOP.M 3:\nSTEP.M 1:\nNULL. -999.25:\n~C\nDEPT.M:\n" + "".join("C%d.:\n" % j for j in range(1, 7))
+           + "LITH.:\nC8.:\n~A\n" + "".join("%d " % r + " ".join("%d.25" % (r * 10 + j) for j in range(1, 7)) + " %s %d.5\n" % (w, r)
+                                            for r, w in ((1, "SAND-SHALE"), (2, "SHALE"), (3, "LIME-DOLO-MIX"))))
+for _w in ("TPL. {0} : plain description", "BRC. x : a lone { brace", "SET. {a,b} : {c}", "PCT. 50% : %s %d %(x)s 100%",
+           "GUID. {WELL_NAME} : registry format", "ESC. C\\data\\new : back\\slashes \\n \\t"):
+    GEN.append("~V\nVERS. 2.0:\nWRAP. NO:\n~W\nSTRT.M 1:\nSTOP.M 2:\nSTEP.M 1:\nNULL. -999.25:\n" + _w + "\n~C\nDEPT.M:\nGR.:\n~A\n1 1\n2 2\n")
+_WORDS = ["SAND-SHALE", "A-B", "LIME-DOLO-MIX", "X-Y-Z-W", "SILT", "COAL-1"]
+GEN.append("~V\nVERS. 2.0:\nWRAP. NO:\n~W\nSTRT.M 1:\nSTOP.M 4:\nSTEP.M 1:\nNULL. -999.25:\n~C\nDEPT.M:\n"
+           + "".join("N%d.:\nT%d.:\n" % (j, j) for j in range(1, 7)) + "~A\n"
+           + "".join("%d " % r + " ".join("%d.5 %s" % (r * 10 + j, _WORDS[(r + j) % 6]) for j in range(1, 7)) + "\n" for r in range(1, 5)))
 # tall data blocks: row counts at and around the block sizes a buffered writer or reader might use (3 and 17 curves)
 for _r in (256, 257, 1000, 1001, 2003, 2048, 4097):
     for _c in (3, 17):
@@ -80,12 +97,14 @@ def run(ctx):
     for name, text in sources:
         optsets = OPTS if thorough else [OPTS[0]] + rng.sample(OPTS[1:], 2)
         for kw in optsets:
-            digs, info = roundtrip.cycle(text, kw, 4 if thorough else 3)
+            # (generated inputs are also cycled as read with mnemonic_case preserve / lower)
+            rk = {} if not name.startswith("gen") or "#mut" in name else {"mnemonic_case": ["upper", "preserve", "lower"][len(events) % 3]}
+            digs, info = roundtrip.cycle(text, kw, 4 if thorough else 3, read_kw=rk)
             if digs is None:
                 skipped += 1
                 continue
             events.append({"op": "cycle", "prop": "C11", "digests": digs, "idxloss": info["idxloss"], "only_sss": info["only_sss"]})
-            meta.append({"input": name, "opts": {k: str(v) for k, v in kw.items()}, "first_difference": info["first_difference"],
+            meta.append({"input": name, "opts": {k: str(v) for k, v in kw.items()}, "read": rk, "first_difference": info["first_difference"],
                          "text": text if len(text) < 3000 else None})
             ctx.evaluations += 1
             ctx.case([name, sorted(kw.items())])
